@@ -163,6 +163,9 @@ pub fn worker_main(args: &[String], resolve: &dyn Fn(&str) -> Option<(&'static s
         std::process::exit(2)
     });
     let mut cx = Ctx::new(name, thorough);
+    let root = PathBuf::from(std::env::var("VERIF_ROOT").unwrap_or_else(|_| "/verif".to_string()));
+    cx.known = load_known(&root, "C05");
+    let mut unmatched_deaths = 0u64;
     let mut block = FLUSH_EVERY;
     let mut i = 5;
     while i < args.len() {
@@ -206,6 +209,9 @@ pub fn worker_main(args: &[String], resolve: &dyn Fn(&str) -> Option<(&'static s
                 a = b;
                 cur = (cur * 2).min(block);
             }
+            Some(h) if h.starts_with("unmatched deaths ") => {
+                a = b;
+            }
             Some(how) => {
                 let (idx, _ord, st) = Progress::read_file(&prog_path).unwrap_or((0, 0, 0));
                 if st == 0 || idx < a || idx >= b || all_probe {
@@ -219,11 +225,22 @@ pub fn worker_main(args: &[String], resolve: &dyn Fn(&str) -> Option<(&'static s
                         std::process::exit(3);
                     }
                 }
-                if let Some(h3) = run_block_in_child(&mut cx, run, idx, idx + 1, &out, &prog_path, true) {
-                    eprintln!("probing of index {idx} died ({h3})");
-                    std::process::exit(3);
+                match run_block_in_child(&mut cx, run, idx, idx + 1, &out, &prog_path, true) {
+                    Some(h3) if h3.starts_with("unmatched deaths ") => {
+                        unmatched_deaths += h3["unmatched deaths ".len()..].parse::<u64>().unwrap_or(1);
+                    }
+                    Some(h3) => {
+                        eprintln!("probing of index {idx} died ({h3})");
+                        std::process::exit(3);
+                    }
+                    None => {}
                 }
                 a = idx + 1;
+                if unmatched_deaths >= EARLY_STOP_DEATHS && a < hi {
+                    // the verdict is settled (unmatched violations exist) and deaths are dense: stop here
+                    let _ = std::fs::remove_file(&cx.scratch);
+                    std::process::exit(7);
+                }
                 cur = (cur / 4).clamp(8, block);
             }
         }
@@ -274,7 +291,15 @@ fn run_block_in_child(cx: &mut Ctx, run: RunCase, a: u64, b: u64, out: &Path, pr
         }
         let line = cx.acc.to_json(b).to_string();
         let ok = std::fs::OpenOptions::new().create(true).append(true).open(out).and_then(|mut f| writeln!(f, "{line}")).is_ok();
-        unsafe { libc::_exit(if ok { 0 } else { 4 }) }
+        let code = if !ok {
+            4
+        } else if cx.unmatched_deaths > 0 {
+            // reported to the worker: 100 + number of deaths that match no known finding
+            100 + cx.unmatched_deaths.min(100) as i32
+        } else {
+            0
+        };
+        unsafe { libc::_exit(code) }
     }
     let mut status = 0i32;
     loop {
@@ -285,6 +310,9 @@ fn run_block_in_child(cx: &mut Ctx, run: RunCase, a: u64, b: u64, out: &Path, pr
     }
     if libc::WIFEXITED(status) && libc::WEXITSTATUS(status) == 0 {
         return None;
+    }
+    if libc::WIFEXITED(status) && libc::WEXITSTATUS(status) > 100 {
+        return Some(format!("unmatched deaths {}", libc::WEXITSTATUS(status) - 100));
     }
     Some(if libc::WIFSIGNALED(status) {
         format!("signal {}", libc::WTERMSIG(status))
@@ -337,6 +365,53 @@ pub struct Pool<'a> {
     pub only: Option<String>,
     counter: std::sync::atomic::AtomicU64,
     pub worker_deaths: Mutex<u64>,
+    /// known-finding matchers of this property (a copy of what vx-kit applies), used only to decide
+    /// whether an unmatched violation already exists, i.e. whether the verdict is already "violated"
+    known: Vec<serde_json::Map<String, Value>>,
+    pub unmatched: std::sync::atomic::AtomicU64,
+    pub stopped_early: std::sync::atomic::AtomicBool,
+}
+
+/// After this many isolated worker deaths, with an unmatched violation already recorded, the sweep
+/// stops: the verdict (exit 1) cannot change any more and dense deaths make the rest very slow.
+pub const EARLY_STOP_DEATHS: u64 = 64;
+
+pub fn load_known(root: &Path, prop: &str) -> Vec<serde_json::Map<String, Value>> {
+    let mut files = vec![root.join("known_findings.json")];
+    if let Ok(rd) = std::fs::read_dir(root.join("findings")) {
+        files.extend(rd.filter_map(|e| e.ok()).map(|e| e.path()).filter(|p| p.extension().map(|x| x == "json").unwrap_or(false)));
+    }
+    let mut out = vec![];
+    for p in files {
+        let Ok(txt) = std::fs::read_to_string(&p) else { continue };
+        let Ok(v) = serde_json::from_str::<Value>(&txt) else { continue };
+        for f in v.get("findings").and_then(|f| f.as_array()).cloned().unwrap_or_default() {
+            if f.get("status").and_then(|s| s.as_str()) != Some("known") {
+                continue;
+            }
+            let applies = match f.get("property") {
+                Some(Value::String(s)) => s == prop,
+                Some(Value::Array(a)) => a.iter().any(|x| x.as_str() == Some(prop)),
+                _ => false,
+            };
+            if applies {
+                if let Some(m) = f.get("match").and_then(|m| m.as_object()) {
+                    out.push(m.clone());
+                }
+            }
+        }
+    }
+    out
+}
+
+pub fn is_known(known: &[serde_json::Map<String, Value>], class: &Value) -> bool {
+    known.iter().any(|m| {
+        m.iter().all(|(k, want)| match (class.get(k), want) {
+            (Some(g), Value::Array(alts)) => alts.iter().any(|a| a == g),
+            (Some(g), w) => g == w,
+            (None, _) => false,
+        })
+    })
 }
 
 impl<'a> Pool<'a> {
@@ -344,7 +419,19 @@ impl<'a> Pool<'a> {
         let exe = std::env::current_exe().unwrap_or_else(|e| vx_kit::report::machinery(&format!("current_exe: {e}")));
         let dir = check.scratch_dir();
         let only = check.replay.as_ref().and_then(|v| v.get("case_id")).and_then(|c| c.as_str()).map(String::from);
-        Pool { check, exe, dir, tier: if check.thorough() { "thorough" } else { "quick" }, only, counter: Default::default(), worker_deaths: Mutex::new(0) }
+        let known = load_known(check.verif_root(), &check.id);
+        Pool {
+            check,
+            exe,
+            dir,
+            tier: if check.thorough() { "thorough" } else { "quick" },
+            only,
+            counter: Default::default(),
+            worker_deaths: Mutex::new(0),
+            known,
+            unmatched: Default::default(),
+            stopped_early: Default::default(),
+        }
     }
 
     fn spawn(&self, job: &Job) -> WorkerResult {
@@ -387,6 +474,8 @@ impl<'a> Pool<'a> {
                 use std::os::unix::process::ExitStatusExt;
                 let how = if let Some(sig) = s.signal() {
                     format!("signal {sig}")
+                } else if s.code() == Some(7) {
+                    "stopped early".to_string()
                 } else if s.code() == Some(98) {
                     "hang (per-case budget exceeded)".to_string()
                 } else {
@@ -417,15 +506,33 @@ impl<'a> Pool<'a> {
                 s.spawn(|| {
                     let mut l = self.check.local();
                     loop {
+                        if self.stopped_early.load(Ordering::Relaxed) {
+                            break;
+                        }
                         let job = { queue.lock().unwrap().pop() };
                         let Some(job) = job else { break };
                         let r = self.spawn(&job);
+                        for v in &r.lines {
+                            for f in v["fails"].as_array().into_iter().flatten() {
+                                for c in f["cases"].as_array().into_iter().flatten() {
+                                    if !is_known(&self.known, &c["class"]) {
+                                        self.unmatched.fetch_add(1, Ordering::Relaxed);
+                                    }
+                                }
+                            }
+                        }
                         let upto = merge_lines(self.check, &mut l, &r.lines).max(job.lo);
                         match r.died {
                             None => {
                                 if upto < job.hi {
                                     self.check.machinery_error(&format!("worker for {}[{}..{}) ended at {upto}", job.family, job.lo, job.hi));
                                 }
+                            }
+                            Some((how, _)) if how == "stopped early" && self.unmatched.load(Ordering::Relaxed) > 0 => {
+                                if !self.stopped_early.swap(true, Ordering::Relaxed) {
+                                    self.check.cap(&format!("stopped early: a worker isolated {EARLY_STOP_DEATHS} deaths that match no known finding (the verdict is settled); the rest of the universe was not run"));
+                                }
+                                break;
                             }
                             Some((how, stderr)) => {
                                 let short: String = stderr.chars().take(300).collect();
